@@ -53,6 +53,20 @@ func main() {
 			os.Exit(1)
 		}
 		props.DebugWrites(prog, os.Args[2])
+	case "stale":
+		prog, err := core.Load(core.RepoDir(), "")
+		if err != nil {
+			fmt.Println(err)
+			os.Exit(1)
+		}
+		props.DebugStale(&props.Ctx{P: prog})
+	case "ackjoin":
+		prog, err := core.Load(core.RepoDir(), "")
+		if err != nil {
+			fmt.Println(err)
+			os.Exit(1)
+		}
+		props.DebugAckJoin(prog)
 	case "tight":
 		prog, err := core.Load(core.RepoDir(), "")
 		if err != nil {
